@@ -80,8 +80,12 @@ package reflect
 //@ lemma sumsz_frame: forall h Mem, g Mem, q Int, r Int, k Int :: {sumsz(g, r, k), sumsz(h, q, k)} (forall j Int :: {g[ix(r, j, 16)]} 0 <= j && j < k ==> g[ix(r, j, 16)] == h[ix(q, j, 16)]) ==> sumsz(g, r, k) == sumsz(h, q, k)
 //@   opt induction k
 
+//@ lemma sumsz_eq2: forall h Mem, q Int, szs Mem, n Int :: {sumsz(h, q, n), sumsz2(szs, n)} (forall j Int :: {h[ix(q, j, 16)]} 0 <= j && j < n ==> h[ix(q, j, 16)] == szs[j]) ==> sumsz(h, q, n) == sumsz2(szs, n)
+//@   opt induction n
+
 //@ func (p *unknownFields) Copy(b []byte) (r []byte)
 //@   requires ufsOK(p, len(b))
+//@   requires c11_inbelow: b.ptr + len(b) <= $brk
 //@   modifies $brk
 //@   ensures len(r) == p.sz && cap(r) == p.sz && old($brk) <= r.ptr && r.ptr + p.sz <= $brk && old($brk) <= $brk
 //@   loop 0 invariant 0 <= off && off == sumsz(heap("unknownFieldIdx.sz"), p.offs.ptr, rangeindex + 1)
@@ -157,7 +161,7 @@ package reflect
 // ---------------------------------------------------------------------------
 // bitset.go : presence set for field ids 0..65535
 
-//@ spec func bit(s *bitset, i Int) bool = bvand64(s.data[i / 64], bvshl64(1, i % 64)) != 0
+//@ spec opaque func bit(s *bitset, i Int) bool reads elem:uint64 = bvand64(s.data[i / 64], bvshl64(1, i % 64)) != 0
 
 //@ axiom bits_or: forall a Int, k Int, j Int :: {bvand64(bvor64(a, bvshl64(1, k)), bvshl64(1, j))} 0 <= a && a < 18446744073709551616 && 0 <= k && k < 64 && 0 <= j && j < 64
 //@     ==> ((bvand64(bvor64(a, bvshl64(1, k)), bvshl64(1, j)) != 0) <==> (k == j || bvand64(a, bvshl64(1, j)) != 0))
@@ -167,18 +171,21 @@ package reflect
 //@   opt bv bits_andnot
 
 //@ func (s *bitset) set(i uint16)
+//@   reveal bit
 //@   requires s != nil
 //@   modifies s.data
 //@   ensures bit(s, i)
-//@   ensures others: forall j uint16 :: j != i ==> (bit(s, j) <==> old(bit(s, j)))
+//@   ensures others: forall j uint16 :: {bit(s, j)} j != i ==> (bit(s, j) <==> old(bit(s, j)))
 
 //@ func (s *bitset) unset(i uint16)
+//@   reveal bit
 //@   requires s != nil
 //@   modifies s.data
 //@   ensures !bit(s, i)
-//@   ensures others: forall j uint16 :: j != i ==> (bit(s, j) <==> old(bit(s, j)))
+//@   ensures others: forall j uint16 :: {bit(s, j)} j != i ==> (bit(s, j) <==> old(bit(s, j)))
 
 //@ func (s *bitset) test(i uint16) (r bool)
+//@   reveal bit
 //@   requires s != nil
 //@   modifies nothing
 //@   ensures r == bit(s, i)
@@ -195,9 +202,10 @@ package reflect
 // ---------------------------------------------------------------------------
 // exception.go : every constructor returns a non-nil error and touches nothing
 
+//@ spec uf func isRequiredNotSet(e error) bool
 //@ func newRequiredFieldNotSetException(name string) (r error)
 //@   modifies nothing
-//@   ensures r != nil
+//@   ensures r != nil && isRequiredNotSet(r)
 //@ func newSizeExceedsBufferException(size int, remain int) (r error)
 //@   modifies nothing
 //@   ensures r != nil
@@ -242,6 +250,8 @@ package reflect
 //@   ensures n == typeToSize[t]
 
 //@ func decodeStringNoCopy(t *tType, b []byte, p unsafe.Pointer) (i int, err error)
+//@   ghost wt Int
+//@   requires c03_wt: t.WT == wt
 //@   requires t != nil && p != nil
 //@   modifies M[p : p+24]
 //@   ensures 0 <= i && i <= len(b)
@@ -250,29 +260,81 @@ package reflect
 // ---------------------------------------------------------------------------
 // decoder.go : struct and value decoders (mutually recursive; measure maxdepth)
 
+// Ghost state of one Decode activation (function-local, initialised at entry):
+//   $seen[id]  : an occurrence of field id with the declared wire type has been decoded
+//   $skn, $skoff[k], $sksz[k] : the k-th skipped occurrence (unknown id or other wire type):
+//                header offset and length (3-byte header + skipped value)
+//@ const ghost $seen = (Array Int Bool)
+//@ const ghost $skn = Int
+//@ const ghost $skoff = (Array Int Int)
+//@ const ghost $sksz = (Array Int Int)
+//@ const ghost $cptr = Int
+
+// ufsIs(p): the index held by p is exactly the ghost list of skipped occurrences
+//@ spec func ufsIs(p *unknownFields, n Int, offs Mem, szs Mem) bool = len(p.offs) == n
+//@     && (forall k int :: {p.offs[k].sz} {p.offs[k].off} 0 <= k && k < n ==> p.offs[k].off == offs[k] && p.offs[k].sz == szs[k])
+
 //@ func (d *tDecoder) Decode(b []byte, base unsafe.Pointer, sd *structDesc, maxdepth int) (n int, err error)
 //@   ghost lvl Int
 //@   requires d != nil && spanInv(&d.s) && wfSD(sd) && base != nil && 0 <= maxdepth && len(b) <= MAXIN
 //@   requires c15_budget: maxdepth >= maxDepthLimit + 2 - 2*lvl
 //@   decreases maxdepth
 //@   call decodeType ghost lvl = lvl + 1
-//@   ensures c15_zero: maxdepth == 0 ==> err == box(errDepthLimitExceeded, "*thrift.ProtocolException")
-//@   ensures c15_accept48: lvl <= 48 ==> maxdepth > 0
+//@   call decodeType ghost wt = tp
+//@   call decodeStringNoCopy ghost wt = tp
+//@   entry ghost $seen = allfalse()
+//@   entry ghost $skn = 0
+//@   entry ghost $skoff = allzero()
+//@   entry ghost $sksz = allzero()
+//@   after decodeFixedSizeTypes ghost $seen = store($seen, f.ID, true)
+//@   after decodeStringNoCopy ghost $seen = (res_err == nil ? store($seen, f.ID, true) : $seen)
+//@   after decodeType ghost $seen = (res_err == nil ? store($seen, f.ID, true) : $seen)
+//@   after Skip ghost $skoff = (res_err == nil ? store($skoff, $skn, i - 3) : $skoff)
+//@   after Skip ghost $sksz = (res_err == nil ? store($sksz, $skn, res_n + 3) : $sksz)
+//@   after Skip ghost $skn = (res_err == nil ? $skn + 1 : $skn)
 //@   modifies M, fields(&d.s), $brk
 //@   ensures 0 <= n && n <= len(b)
 //@   ensures spanInv(&d.s) && old($brk) <= $brk
 //@   ensures maxdepth == 0 ==> err != nil && n == 0
+//@   ensures c15_zero: maxdepth == 0 ==> err == box(errDepthLimitExceeded, "*thrift.ProtocolException")
+//@   ensures c15_accept48: lvl <= 48 ==> maxdepth > 0
+//@   ensures c09_allseen: err == nil ==> forall k int :: {sd.requiredFieldIDs[k]} 0 <= k && k < len(sd.requiredFieldIDs) ==> $seen[sd.requiredFieldIDs[k]]
+//@   ensures c09_missing: isRequiredNotSet(err) ==> exists k int :: 0 <= k && k < len(sd.requiredFieldIDs) && !$seen[sd.requiredFieldIDs[k]]
+//@   entry ghost $cptr = 0
+//@   after Copy ghost $cptr = res_r.ptr
+//@   requires c11_inbelow: b.ptr + len(b) <= $brk
+//@   ensures c11_hdr_ptr: err == nil && sd.hasUnknownFields && $skn > 0 ==> old($brk) <= $cptr && ld64(base + sd.unknownFieldsOffset) == $cptr
+//@   ensures c11_hdr_len: err == nil && sd.hasUnknownFields && $skn > 0 ==> ld64(base + sd.unknownFieldsOffset + 8) == sumsz2($sksz, $skn) && ld64(base + sd.unknownFieldsOffset + 16) == sumsz2($sksz, $skn)
+//@   ensures c11_noholder: err == nil && (!sd.hasUnknownFields || $skn == 0) ==> $cptr == 0
+//@   loop 0 invariant c09_cleared: forall k int :: {sd.requiredFieldIDs[k]} 0 <= k && k <= rangeindex ==> !bit(bs, sd.requiredFieldIDs[k])
 //@   loop 1 invariant 0 <= i && i <= len(b) && spanInv(&d.s) && old($brk) <= $brk
 //@   loop 1 invariant ufs != nil ==> ufsOK(ufs, i) && old($brk) <= ufs && (cap(ufs.offs) == 0 || old($brk) <= ufs.offs.ptr)
+//@   loop 1 invariant c09_bits: bs != nil ==> old($brk) <= bs && (forall k int :: {sd.requiredFieldIDs[k]} 0 <= k && k < len(sd.requiredFieldIDs) ==> (bit(bs, sd.requiredFieldIDs[k]) <==> $seen[sd.requiredFieldIDs[k]]))
+//@   loop 1 invariant c09_nobs: bs == nil ==> len(sd.requiredFieldIDs) == 0
+//@   loop 1 invariant c11_index: 0 <= $skn && (ufs != nil ==> ufsIs(ufs, $skn, $skoff, $sksz))
+//@   loop 1 invariant c11_ufs: (ufs != nil) <==> sd.hasUnknownFields
+//@   loop 1 invariant c11_total: ufs != nil ==> ufs.sz == sumsz2($sksz, $skn) && ($skn > 0 ==> ufs.sz > 0)
+//@   loop 1 invariant c11_windows: forall k Int :: {$skoff[k]} 0 <= k && k < $skn ==> 0 <= $skoff[k] && 3 < $sksz[k] && $skoff[k] + $sksz[k] <= i
 //@   loop 1 decreases len(b) - i
+//@   loop 2 invariant c09_checked: forall k int :: {sd.requiredFieldIDs[k]} 0 <= k && k <= rangeindex ==> $seen[sd.requiredFieldIDs[k]]
+
+// holderContent: the block at c holds, in order, the bytes of the n recorded windows of the input at inp
+//@ spec func holderContent(m Mem, c Int, inp Int, n Int, offs Mem, szs Mem) bool =
+//@     forall k Int, a Int :: {m[c + sumsz2(szs, k) + a]} 0 <= k && k < n && 0 <= a && a < szs[k] ==> m[c + sumsz2(szs, k) + a] == m[inp + offs[k] + a]
+//@ spec rec func sumsz2(szs Mem, k Int) Int = k <= 0 ? 0 : sumsz2(szs, k-1) + szs[k-1]
 
 //@ func (d *tDecoder) decodeType(t *tType, b []byte, p unsafe.Pointer, maxdepth int) (n int, err error)
 //@   requires d != nil && spanInv(&d.s) && wfT(t) && p != nil && 0 <= maxdepth && len(b) <= MAXIN
-//@   ghost lvl Int
+//@   ghost lvl Int, wt Int
+//@   requires c03_wt: t.WT == wt
+//@   requires c11_inbelow: b.ptr + len(b) <= $brk
 //@   requires t.FixedSize > 0 ==> len(b) >= t.FixedSize
 //@   requires c15_budget: maxdepth >= maxDepthLimit + 3 - 2*lvl
 //@   decreases maxdepth
 //@   call decodeType ghost lvl = lvl + 1
+//@   call decodeType#0 ghost wt = t0
+//@   call decodeType#1 ghost wt = t1
+//@   call decodeType#2 ghost wt = tp
 //@   call Decode ghost lvl = lvl
 //@   ensures c15_zero: maxdepth == 0 ==> err == box(errDepthLimitExceeded, "*thrift.ProtocolException")
 //@   ensures c15_accept48: lvl <= 48 ==> maxdepth > 0
@@ -299,7 +361,7 @@ package reflect
 //@ trusted func reflect.panicIfHackErr()
 
 //@ func Decode(b []byte, v any) (n int, err error)
-//@   requires len(b) <= MAXIN
+//@   requires len(b) <= MAXIN && b.ptr + len(b) <= $brk
 //@   modifies M, $brk
 //@   call Decode ghost lvl = 1
 //@   ensures 0 <= n && n <= len(b)
